@@ -209,8 +209,30 @@ impl<'a> World<'a> {
 
     fn encrypt_and_check(&mut self, data: &[u8]) -> Option<(Chunk, Vec<Chunk>)> {
         let max = *self_encryption::MAX_CHUNK_SIZE;
-        let r1 = autonomi::self_encryption::encrypt(Bytes::copy_from_slice(data));
+        // The first encryption runs on a buffer whose allocation held ANOTHER input of the same length a moment ago
+        // (a refilled read buffer, a loop over equally sized files): the result must depend on the content alone.
+        // (the reused buffer stays alive until the second, independent encryption is done, so that one cannot land
+        // in the same allocation by accident of the allocator)
+        let mut keep_alive: Option<Bytes> = None;
+        let r1 = if data.len() >= 3 {
+            let decoy: Vec<u8> = data.iter().map(|b| b ^ 0x55).collect();
+            let b0 = bytes::BytesMut::from(&decoy[..]).freeze();
+            let _ = autonomi::self_encryption::encrypt(b0.clone());
+            match b0.try_into_mut() {
+                Ok(mut m) => {
+                    m.copy_from_slice(data);
+                    self.rep.probe("encrypted_in_a_reused_buffer");
+                    let b1 = m.freeze();
+                    keep_alive = Some(b1.clone());
+                    autonomi::self_encryption::encrypt(b1)
+                }
+                Err(_) => autonomi::self_encryption::encrypt(Bytes::copy_from_slice(data)),
+            }
+        } else {
+            autonomi::self_encryption::encrypt(Bytes::copy_from_slice(data))
+        };
         let r2 = autonomi::self_encryption::encrypt(Bytes::copy_from_slice(data));
+        drop(keep_alive);
         if data.len() < 3 {
             self.rep.probe("too_small_input");
             if r1.is_ok() {
